@@ -1,6 +1,6 @@
 (* C10 — property theorems only. *)
 From DV Require Import Base.Tactics Base.NList Model.C10 Proofs.C10.
-From G Require Import C10_gen C10_tie.
+From G Require Import C10_gen C10_defs C10_tie.
 Open Scope Z_scope.
 
 (* centre crop: guard = documented precondition; window starts at floor((n - m)/2) and has the requested size *)
